@@ -29,7 +29,10 @@ func main() {
 		flag.Usage()
 		os.Exit(2)
 	}
+	loadBaselineLocals(*flagSpecs)
 	switch args[0] {
+	case "locals":
+		os.Exit(cmdLocals())
 	case "fn":
 		os.Exit(cmdFn(args[1:]))
 	case "check":
@@ -59,7 +62,10 @@ func genFuncs(w *World, keys []string) ([]*Gen, error) {
 			continue
 		}
 		ct := w.ss.Contracts[k]
-		g := &Gen{m: w.m, prog: w.prog, fn: fn, c: ct, key: k, world: w, noDecl: map[string]bool{}}
+		g := &Gen{m: w.m, prog: w.prog, fn: fn, c: ct, key: k, world: w, noDecl: map[string]bool{}, alias: w.aliasesFor(fn)}
+		if len(g.alias) > 0 {
+			g.warnings = append(g.warnings, fmt.Sprintf("renamed locals: contract names read as %v", g.alias))
+		}
 		if err := g.run(); err != nil {
 			return nil, err
 		}
